@@ -539,9 +539,14 @@ func (b *Builder) AllComparisonSeries(existing []*ComparisonSeries, dupeHow int)
 						Values:   concat(cc.Numerator.Values, cell.Values),
 						Residues: union(cc.Numerator.Residues, cell.Residues),
 					}
-					cc.Denominator = &Cell{
-						Values:   concat(cc.Denominator.Values, tr.baseline.Values),
-						Residues: union(cc.Denominator.Residues, tr.baseline.Residues),
+					// Either side may lack a baseline (a test point with no denominator).
+					if cc.Denominator == nil {
+						cc.Denominator = tr.baseline
+					} else if tr.baseline != nil {
+						cc.Denominator = &Cell{
+							Values:   concat(cc.Denominator.Values, tr.baseline.Values),
+							Residues: union(cc.Denominator.Residues, tr.baseline.Residues),
+						}
 					}
 					if cc.Date < dateString {
 						cc.Date = dateString
